@@ -44,6 +44,41 @@ def main():
         rec["suite_with_change"] = "%d passed, %d failed" % (passed, failed)
         os.makedirs(os.path.join(WT, "tests"), exist_ok=True)
         tname = "demo_" + mid.lower()
+        shdemo = os.path.join(d, "demo.sh")
+        if not demos and os.path.exists(shdemo):
+            # shell demo driving the built binary (exit status 0 = property holds); binary path through SOLSTAT_BIN
+            env_bin = "SOLSTAT_BIN=%s/target/debug/solstat" % WT
+            # deliveries that hard-code the sub-agent's worktree binary: make the path overridable
+            import re as _re
+            txt = open(shdemo).read()
+            txt2 = _re.sub(r"(?m)^BIN=/tmp/mut/wt_\w+/target/debug/solstat\s*$", "BIN=${SOLSTAT_BIN:?set SOLSTAT_BIN to the solstat binary under test}", txt)
+            if txt2 != txt:
+                shdemo = os.path.join("/tmp", "confirm_demo_%s.sh" % mid)
+                open(shdemo, "w").write(txt2)
+            sh("cargo build --offline 2>&1 | tail -1", cwd=WT)
+            rc1, out1 = sh("%s bash %s" % (env_bin, shdemo), cwd=WT)
+            rec["demo_with_change"] = "fails" if rc1 != 0 else "passes"
+            sh("git apply -R %s" % patch, cwd=WT)
+            sh("cargo build --offline 2>&1 | tail -1", cwd=WT)
+            rc2, out2 = sh("%s bash %s" % (env_bin, shdemo), cwd=WT)
+            rec["demo_without_change"] = "passes" if rc2 == 0 else "fails"
+            ok = passed >= 70 and failed == 0 and rec["demo_with_change"] == "fails" and rec["demo_without_change"] == "passes"
+            rec["status"] = "confirmed" if ok else "NOT-confirmed"
+            if ok:
+                dst = os.path.join(SEEDED, mid)
+                os.makedirs(dst, exist_ok=True)
+                shutil.copyfile(patch, os.path.join(dst, "patch.diff"))
+                shutil.copyfile(shdemo, os.path.join(dst, "demo.sh"))
+                m2 = {"id": mid, "property": meta.get("property"), "what": meta.get("what"), "needs": meta.get("needs"),
+                      "demo_cmd": "cargo build --offline in the worktree; SOLSTAT_BIN=<worktree>/target/debug/solstat bash demo.sh (exit 0 = property holds)",
+                      "confirmed_at_repo_commit": head,
+                      "ran": ["git apply patch.diff (scratch worktree /tmp/confirm_wt of /repo HEAD %s)" % head,
+                              "cargo test --workspace --no-fail-fast --offline -> %s" % rec["suite_with_change"],
+                              "bash demo.sh with the change -> %s" % rec["demo_with_change"],
+                              "git apply -R ; cargo build ; bash demo.sh without the change -> %s" % rec["demo_without_change"]],
+                      "origin": "fresh sub-agent given only the property text and a scratch worktree"}
+                json.dump(m2, open(os.path.join(dst, "meta.json"), "w"), indent=1)
+            summary.append(rec); print(rec, flush=True); continue
         if not demos:
             rec["status"] = "no-demo"; summary.append(rec); print(rec, flush=True); continue
         shutil.copyfile(demos[0], os.path.join(WT, "tests", tname + ".rs"))
